@@ -179,6 +179,10 @@ func (p *Parser) SkipToTargetToken(target string) error {
 			return err
 		}
 
+		if nextT == nil {
+			break
+		}
+
 		if nextT.IsTargetIdentifier(target) {
 			break
 		}
